@@ -287,9 +287,37 @@ func c15DoLint(c *Ctx, r *Report) {
 	}
 }
 
+// anyPredicate: the "was any selector given?" test of setLints — its closure, or
+// a package-level function of the shape func(...string) bool it calls.
+func anyPredicate(fn *ssa.Function) *ssa.Function {
+	for _, a := range fn.AnonFuncs {
+		return a
+	}
+	var out *ssa.Function
+	allInstrs(fn, func(in ssa.Instruction) {
+		call, ok := in.(*ssa.Call)
+		if !ok {
+			return
+		}
+		callee := call.Call.StaticCallee()
+		if callee == nil || callee.Pkg != fn.Pkg {
+			return
+		}
+		sig := callee.Signature
+		if sig.Variadic() && sig.Params().Len() == 1 && sig.Results().Len() == 1 && sig.Results().At(0).Type().String() == "bool" && sig.Params().At(0).Type().String() == "[]string" {
+			out = callee
+		}
+	})
+	return out
+}
+
+// resolvedSrcField: flag variable → FilterOptions field its parsed list is stored in.
+var resolvedSrcField = map[string]string{}
+
 func c15SetLints(c *Ctx, r *Report) {
 	fn := c.Func("cmd/zlint", "setLints")
-	outs, abort := Enumerate(fn, SymOpts{Inline: func(*ssa.Function) bool { return false }, NoReturn: isFatal, MaxPaths: 50000})
+	anyPred := anyPredicate(fn)
+	outs, abort := Enumerate(fn, SymOpts{Inline: func(*ssa.Function) bool { return false }, NoReturn: isFatal, MaxPaths: 50000, Opaque: func(f *ssa.Function) bool { return f == anyPred }})
 	if abort != "" {
 		r.Unk("setlints-table", "setLints", fn.Pos(), abort)
 		return
@@ -354,12 +382,12 @@ func c15SetLints(c *Ctx, r *Report) {
 			if t.Op == "call" {
 				switch {
 				case t.Name == "(*lint.SourceList).FromString":
-					isEx := len(t.Args) == 2 && strings.HasSuffix(t.Args[0].String(), ".ExcludeSources")
+					isEx := len(t.Args) == 2 && (strings.HasSuffix(t.Args[0].String(), ".ExcludeSources") || (!strings.HasSuffix(t.Args[0].String(), ".IncludeSources") && strings.HasSuffix(t.Args[1].String(), ".excludeSources")))
 					if (isEx && k.exSrcErr) || (!isEx && k.inSrcErr) {
 						return errVal{}, true
 					}
 					return nil, true
-				case strings.HasPrefix(t.Name, "closure:") || strings.HasPrefix(t.Name, "dyn:") || strings.Contains(t.Name, "setLints$"):
+				case strings.HasPrefix(t.Name, "closure:") || strings.HasPrefix(t.Name, "dyn:") || strings.Contains(t.Name, "setLints$") || (anyPred != nil && t.Name == fname(anyPred)):
 					// anyFilters(...)
 					anyArgs = t.String()
 					return any, true
@@ -461,7 +489,30 @@ func c15SetLints(c *Ctx, r *Report) {
 				}
 				gotSrc := map[string]string{}
 				for _, ev := range srcCalls {
-					gotSrc[lastField(ev.Args[0].String())] = ev.Args[1].String()
+					dst := lastField(ev.Args[0].String())
+					if dst != "IncludeSources" && dst != "ExcludeSources" {
+						// parsed into a local list (helper newer than the rules): the option
+						// it ends up in is the FilterOptions field holding that list
+						obj := strings.TrimPrefix(ev.Args[0].String(), "&")
+						for mk, v := range o.Mem {
+							if (strings.HasSuffix(mk, ".IncludeSources") || strings.HasSuffix(mk, ".ExcludeSources")) && strings.Contains(mk, "filterOpts") && strings.Contains(v.String(), obj) {
+								dst = lastField(mk)
+							}
+						}
+						for _, e2 := range o.Trace {
+							if e2.Kind == "store" && len(e2.Args) == 1 && (strings.HasSuffix(e2.Name, ".IncludeSources") || strings.HasSuffix(e2.Name, ".ExcludeSources")) && strings.Contains(e2.Name, "filterOpts") && strings.Contains(e2.Args[0].String(), obj) {
+								dst = lastField(e2.Name)
+							}
+						}
+					}
+					if dst == "IncludeSources" || dst == "ExcludeSources" {
+						resolvedSrcField[ev.Args[1].String()] = dst
+					} else if d2, ok := resolvedSrcField[ev.Args[1].String()]; ok {
+						// AddProfile (an opaque call on the options) hides the local store on
+						// this path; the same call site was resolved on the path without -profile
+						dst = d2
+					}
+					gotSrc[dst] = ev.Args[1].String()
 				}
 				if fmt.Sprint(gotSrc) != fmt.Sprint(wantSrc) {
 					bad = fmt.Sprintf("source flags reach %v, expected %v", gotSrc, wantSrc)
@@ -493,10 +544,7 @@ func c15SetLints(c *Ctx, r *Report) {
 		r.Check(bad == "", "setlints-table", key, fn.Pos(), "", bad)
 	}
 	// anyFilters body: true iff some argument is non-empty
-	var anyFn *ssa.Function
-	for _, a := range fn.AnonFuncs {
-		anyFn = a
-	}
+	anyFn := anyPred
 	if anyFn == nil {
 		r.OK("setlints-table", "anyFilters", fn.Pos(), false, "no closure: selectors tested inline")
 		return
